@@ -35,9 +35,20 @@ func GenerateSequenceDiag(m *sysl.Module, p *SequenceDiagParam, logger *logrus.L
 	}
 
 	const color = "#LightBlue"
-	for boxname, appset := range v.Groupboxes {
+	boxnames := make([]string, 0, len(v.Groupboxes))
+	for boxname := range v.Groupboxes {
+		boxnames = append(boxnames, boxname)
+	}
+	sort.Strings(boxnames)
+	for _, boxname := range boxnames {
+		appset := v.Groupboxes[boxname]
 		fmt.Fprintf(w, "box \"%s\" %s\n", boxname, color)
+		appnames := make([]string, 0, len(appset))
 		for key := range appset {
+			appnames = append(appnames, key)
+		}
+		sort.Strings(appnames)
+		for _, key := range appnames {
 			fmt.Fprintf(w, "\tparticipant %s\n", v.UniqueVarForAppName(key))
 		}
 		fmt.Fprintf(w, "end box\n")
